@@ -269,10 +269,12 @@ func cmdProp(args []string) {
 	// expected obligation names (vacuity guard: nothing may silently disappear)
 	expPath := filepath.Join(*verif, "props", cfg.ID+".expected")
 	seen := map[string]bool{}
+	seenN := map[string]int{}
 	var names []string
 	for _, u := range units {
 		for _, ob := range u.em.obls {
 			seen[stableName(ob.Name)] = true
+			seenN[stableName(ob.Name)]++
 			names = append(names, ob.Name)
 		}
 	}
@@ -280,9 +282,21 @@ func cmdProp(args []string) {
 		sort.Strings(names)
 		os.WriteFile(expPath, []byte(strings.Join(names, "\n")+"\n"), 0o644)
 	} else if data, err := os.ReadFile(expPath); err == nil {
+		expN := map[string]int{}
 		for _, n := range strings.Split(strings.TrimSpace(string(data)), "\n") {
 			if n != "" && !seen[stableName(n)] {
 				fail(n+"#vanished", map[string]any{"error": "obligation generated on the reference tree is no longer generated: " + n}, true)
+			}
+			if n != "" {
+				expN[stableName(n)]++
+			}
+		}
+		// statement-level pins (call-site / store-site obligations) exist once per site: when one
+		// of several sites with the same clause disappears, the instance count drops
+		for _, sn := range sortedKeys(expN) {
+			parts := strings.SplitN(sn, "#", 3)
+			if len(parts) == 3 && (parts[1] == "callsite" || parts[1] == "store") && seen[sn] && seenN[sn] < expN[sn] {
+				fail(sn+"#vanished-instance", map[string]any{"error": fmt.Sprintf("%d of %d sites of this statement-level obligation are no longer generated: %s", expN[sn]-seenN[sn], expN[sn], sn)}, true)
 			}
 		}
 	}
